@@ -37,6 +37,15 @@ RTOL_BRENTQ = Fraction(1, 2 ** 50)
 TNUCL = 64.0
 
 
+def fail(ctx, what, rep, key=None):
+    """ctx.fail_input, at most 3 replay files per failure class"""
+    seen = ctx.cov.setdefault("failing_inputs_per_key", {})
+    seen[key] = seen.get(key, 0) + 1
+    if seen[key] <= 3:
+        return ctx.fail_input(what, rep, key=key)
+    return None
+
+
 # ======================================================================================
 # synthetic pressure curves (exact rationals) and the stubbed EOM
 
@@ -366,7 +375,11 @@ def gen_case(rng, scenario=None):
     fastest = vmax
     scenario = scenario or rng.choice(
         ["root"] * 8 + ["runaway", "doubling", "doubling", "positive", "multi", "multi",
-                        "zero_end", "nonconv", "random", "random", "random"])
+                        "zero_end", "nonconv", "random", "random", "random", "degenerate"])
+    if scenario == "degenerate":
+        mode = rng.choice(["direct", "given"])
+    if mode != "deflag" and rng.random() < 0.4:
+        vJ = Fraction(rng.randint(100, 400), 1024)     # detonation-typed roots
     wlo, whi = Fraction(1, 128), Fraction(10)
     olo, ohi = Fraction(-10), Fraction(10)
     TLow, THigh = (Fraction(50), Fraction(120)), (Fraction(60), Fraction(150))
@@ -395,6 +408,15 @@ def gen_case(rng, scenario=None):
             maxiter = rng.choice([1, 2, 3])
             # make brentq need several steps
             segs = [mkseg(0, Fraction(-1, 64), 0), mkseg(r, Fraction(3), 40)]
+    elif scenario == "degenerate":
+        # the doubled lower end lands within 1e-10 below the upper end (known corner: the
+        # implementation lets brentq's ValueError escape, the model says RRaises)
+        k = rng.randint(1, 3)
+        vmin = Fraction(rng.randint(8, 30), 256)
+        vmax = vmin * 2 ** k + Fraction(1, 2 ** rng.choice([36, 40, 44]))
+        segs = [mkseg(0, Fraction(rng.randint(1, 16), 8), 0),
+                mkseg(vmin * 2 ** k - Fraction(1, 1024), -Fraction(rng.randint(1, 16), 8), 0),
+                mkseg(vmax, Fraction(rng.randint(1, 16), 8), 0)]
     elif scenario == "runaway":
         segs = [mkseg(0, -Fraction(rng.randint(1, 100), 4), Fraction(rng.randint(0, 4), 4))]
         if rng.random() < 0.5:   # positive somewhere below vmax, still negative at vmax
@@ -522,43 +544,43 @@ def direct_synthetic(ctx, case, obs):
         # only the degenerate bracket may raise (known corner, see the Props file)
         k, v = bracket_phase_counts(case, obs)
         if not (v < vmax and vmax - v < Fraction(1, 10 ** 10)):
-            ctx.fail_input("solveWall raised %s on a non-degenerate bracket" % obs["raised"],
+            fail(ctx, "solveWall raised %s on a non-degenerate bracket" % obs["raised"],
                            dict(kind="synthetic", case=cj), key="raises")
         return
     ok_label = (obs["type"] == "ERROR") == (not obs["success"])
     if not ok_label:
-        ctx.fail_input("success=%s but solutionType=%s" % (obs["success"], obs["type"]),
+        fail(ctx, "success=%s but solutionType=%s" % (obs["success"], obs["type"]),
                        dict(kind="synthetic", case=cj), key="label")
     tags = obs["tags"]
     if len(set(tags.values())) != 1:
-        ctx.fail_input("returned fields come from different evaluations: %s" % tags,
+        fail(ctx, "returned fields come from different evaluations: %s" % tags,
                        dict(kind="synthetic", case=cj), key="mixed-sources")
     if obs["type"] == "RUNAWAY":
         pmax = find_seg(case["segs"], vmax).p(vmax)
         if not (pmax < 0 and obs["velocity"] is None and obs["success"]):
-            ctx.fail_input("runaway reported with p(vmax)=%s velocity=%s" % (pmax, obs["velocity"]),
+            fail(ctx, "runaway reported with p(vmax)=%s velocity=%s" % (pmax, obs["velocity"]),
                            dict(kind="synthetic", case=cj), key="runaway")
     if obs["velocity"] is not None:
         v = Fraction(float(obs["velocity"]))
         last = obs["log"][-1]
         if Fraction(last["v"]) != v or tags["hydro"] != len(obs["log"]) - 1:
-            ctx.fail_input("returned fields are not those of the last evaluation at the "
+            fail(ctx, "returned fields are not those of the last evaluation at the "
                            "returned velocity (tags %s, %d evaluations, last at %r, v=%r)"
                            % (tags, len(obs["log"]), last["v"], obs["velocity"]),
                            dict(kind="synthetic", case=cj), key="not-final-eval")
         want_err = float(case["errTol"]) * obs["velocity"]
         if abs(obs["velErr"] - want_err) > 1e-12 * abs(want_err):
-            ctx.fail_input("wallVelocityError %r is not errTol*vw = %r" % (obs["velErr"], want_err),
+            fail(ctx, "wallVelocityError %r is not errTol*vw = %r" % (obs["velErr"], want_err),
                            dict(kind="synthetic", case=cj), key="velocity-error")
     if obs["success"] and obs["velocity"] is not None:
         v = Fraction(float(obs["velocity"]))
         k, vminF = bracket_phase_counts(case, obs)
         if not (vminF <= v <= vmax and vmin <= vminF):
-            ctx.fail_input("velocity %r outside the searched window [%s, %s]" % (
+            fail(ctx, "velocity %r outside the searched window [%s, %s]" % (
                 obs["velocity"], float(vminF), float(vmax)),
                 dict(kind="synthetic", case=cj), key="window")
         if case["mode"] == "deflag" and not (v <= Fraction(case["vJ"]) and obs["type"] == "DEFLAGRATION"):
-            ctx.fail_input("deflagration search returned v=%r type=%s with vJ=%s" % (
+            fail(ctx, "deflagration search returned v=%r type=%s with vJ=%s" % (
                 obs["velocity"], obs["type"], float(case["vJ"])),
                 dict(kind="synthetic", case=cj), key="window")
         # hypothesis A (brentq contract) with the configured errTol
@@ -577,7 +599,7 @@ def direct_synthetic(ctx, case, obs):
         if not good:
             width = min([abs(x - v) for x, y in calls if (y > 0) != (fr[-1] > 0 if fr else True)]
                         or [Fraction(-1)])
-            ctx.fail_input(
+            fail(ctx, 
                 "success with vw=%r but no sign change of the pressure within errTol=%g of it "
                 "among the root finder's evaluations (closest opposite-sign point at distance "
                 "%.3g; xtol passed to the root finder: %r)" % (
@@ -599,13 +621,14 @@ def correspondence(ctx, proved):
     rng = ctx.rng
     n = ctx.n(260, 5000)
     terms, kept = [], []
-    scen = ["root", "runaway", "doubling", "positive", "multi", "zero_end", "nonconv"]
+    scen = ["root", "runaway", "doubling", "positive", "multi", "zero_end", "nonconv",
+            "degenerate"]
     for i in range(n):
         case = gen_case(rng, scenario=scen[i] if i < len(scen) else None)
         try:
             obs = run_impl(case)
         except Exception as e:
-            ctx.fail_input("solveWall raised %r" % e, dict(kind="synthetic", case=case_json(case)),
+            fail(ctx, "solveWall raised %r" % e, dict(kind="synthetic", case=case_json(case)),
                            key="raises")
             ctx.log(traceback.format_exc())
             continue
@@ -653,7 +676,7 @@ def degenerate_witness(ctx):
         listed = any(k.get("property") == "C01" and k.get("key") == "degenerate-bracket-raises"
                      for k in ctx.known.get("findings", []))
         if listed:
-            ctx.fail_input(what, dict(kind="degenerate", case=case_json(case)),
+            fail(ctx, what, dict(kind="degenerate", case=case_json(case)),
                            key="degenerate-bracket-raises")
         else:
             ctx.log("NOTE (unlisted corner finding, see Props/C01.v "
@@ -762,20 +785,20 @@ def e2e_sign_and_window(ctx, params, errTol, res, label, M=20):
     set_point(m2, model2, params, TN)
     hyd = m2.hydrodynamics
     if (res.solutionType.name == "ERROR") != (not res.success):
-        ctx.fail_input("e2e: success=%s with type %s" % (res.success, res.solutionType.name),
+        fail(ctx, "e2e: success=%s with type %s" % (res.success, res.solutionType.name),
                        rep, key="label")
     if res.solutionType.name == "RUNAWAY" and res.wallVelocity is not None:
-        ctx.fail_input("e2e: runaway with a velocity", rep, key="runaway")
+        fail(ctx, "e2e: runaway with a velocity", rep, key="runaway")
     if not (res.success and res.wallVelocity is not None):
         return
     vw = float(res.wallVelocity)
     vmax = min(hyd.vJ, hyd.fastestDeflag())
     ctx.count("e2e_window")
     if not (hyd.vMin <= vw <= vmax and res.solutionType.name == "DEFLAGRATION"):
-        ctx.fail_input("e2e: vw=%r outside [vMin=%r, min(vJ,fastestDeflag)=%r] or type %s" % (
+        fail(ctx, "e2e: vw=%r outside [vMin=%r, min(vJ,fastestDeflag)=%r] or type %s" % (
             vw, hyd.vMin, vmax, res.solutionType.name), rep, key="window")
     if res.velocityJouguet != hyd.vJ:
-        ctx.fail_input("e2e: returned vJ=%r is not the current hydrodynamics' vJ=%r" % (
+        fail(ctx, "e2e: returned vJ=%r is not the current hydrodynamics' vJ=%r" % (
             res.velocityJouguet, hyd.vJ), rep, key="history")
     eom = m2.setupWallSolver(settings()).eom
     ps = {}
@@ -786,7 +809,7 @@ def e2e_sign_and_window(ctx, params, errTol, res, label, M=20):
         ctx.count("e2e_pressure_eval")
     rep["pressures"] = ps
     if not (ps[-2] < 0 < ps[2]):
-        ctx.fail_input(
+        fail(ctx, 
             "e2e: pressure does not change sign within 2*errTol of the reported velocity: "
             "P(%r - 2*%g) = %.6g, P(vw + 2*%g) = %.6g  [%s]" % (vw, errTol, ps[-2], errTol,
                                                               ps[2], label),
@@ -794,7 +817,7 @@ def e2e_sign_and_window(ctx, params, errTol, res, label, M=20):
     # T+, T- returned are those of the hydrodynamic matching at the returned velocity
     c1, c2, Tp, Tm, vmid = hyd.findHydroBoundaries(vw)
     if abs(Tp - res.temperaturePlus) > 1e-9 * Tp or abs(Tm - res.temperatureMinus) > 1e-9 * Tm:
-        ctx.fail_input("e2e: returned T+/T- (%r, %r) are not those at the returned velocity "
+        fail(ctx, "e2e: returned T+/T- (%r, %r) are not those at the returned velocity "
                        "(%r, %r)" % (res.temperaturePlus, res.temperatureMinus, Tp, Tm), rep,
                        key="not-final-eval")
 
@@ -819,7 +842,7 @@ def e2e_history(ctx, errTol, thorough_extra=False):
     hist.append("solveWall@A")
     ctx.count("e2e_solve")
     if not same(sA1, sA2):
-        ctx.fail_input("repeating solveWall on the same manager changed the result: %s vs %s"
+        fail(ctx, "repeating solveWall on the same manager changed the result: %s vs %s"
                        % (sA1, sA2), dict(rep, history=list(hist)), key="history")
     lte = m.wallSpeedLTE()
     hist.append("wallSpeedLTE")
@@ -828,7 +851,7 @@ def e2e_history(ctx, errTol, thorough_extra=False):
         hist.append("solveWallDetonation")
         for d in det:
             if (d.solutionType.name == "ERROR") != (not d.success):
-                ctx.fail_input("detonation result success=%s type=%s" % (
+                fail(ctx, "detonation result success=%s type=%s" % (
                     d.success, d.solutionType.name), dict(rep, history=list(hist)), key="label")
     except Exception as e:   # noqa
         ctx.log("solveWallDetonation raised", repr(e))
@@ -836,10 +859,10 @@ def e2e_history(ctx, errTol, thorough_extra=False):
     hist.append("solveWall@A")
     ctx.count("e2e_solve")
     if not same(sA1, sA3):
-        ctx.fail_input("solveWall after wallSpeedLTE/solveWallDetonation differs: %s vs %s"
+        fail(ctx, "solveWall after wallSpeedLTE/solveWallDetonation differs: %s vs %s"
                        % (sA1, sA3), dict(rep, history=list(hist)), key="history")
     if sA1["lte"] != float(lte):
-        ctx.fail_input("wallVelocityLTE in the result (%r) differs from wallSpeedLTE() (%r)"
+        fail(ctx, "wallVelocityLTE in the result (%r) differs from wallSpeedLTE() (%r)"
                        % (sA1["lte"], lte), dict(rep, history=list(hist)), key="history")
     # other parameter point, parameters changed in place + re-setup (same Tn)
     set_point(m, model, POINT_B, TN)
@@ -853,7 +876,7 @@ def e2e_history(ctx, errTol, thorough_extra=False):
     sBf = summary(mf.solveWall(S))
     ctx.count("e2e_solve", dict(point="B fresh", errTol=errTol))
     if not same(sB, sBf):
-        ctx.fail_input(
+        fail(ctx, 
             "result depends on call history: after %s the manager returns vw=%r (vJ=%r, T+=%r) "
             "for point B, a fresh manager returns vw=%r (vJ=%r, T+=%r)" % (
                 " -> ".join(hist[:-1]), sB["vw"], sB["vJ"], sB["Tplus"], sBf["vw"], sBf["vJ"],
